@@ -333,7 +333,31 @@ def resume_digest_phase(root, kwargs, snapdir, n):
                     np.allclose(np.where(np.isfinite(a), a, 0), np.where(np.isfinite(b), b, 0), rtol=1e-4, atol=1e-4)
                     and np.array_equal(np.isfinite(a), np.isfinite(b)))
                 close[k] = {"close": ok, "max_abs": float(np.nanmax(np.abs(np.where(np.isfinite(a) & np.isfinite(b), a - b, 0))))
-                            if b is not None and a.shape == b.shape and a.size else None}
+                            if b is not None and a.shape == b.shape and a.size else None, "rows": int(a.shape[0])}
+                if b is not None and a.shape == b.shape and not ok:
+                    rows = np.where(~np.isclose(np.where(np.isfinite(a), a, 0), np.where(np.isfinite(b), b, 0),
+                                                rtol=1e-4, atol=1e-4).all(axis=1))[0]
+                    close[k]["bad_rows"] = [int(rows.min()), int(rows.max()), int(rows.size)] if rows.size else None
+            # an independent evaluation of the density table: flow by flow, in chunks of 3001 rows, through
+            # log_prob_ith (not the code path resume uses)
+            if hasattr(ns, "training_samples"):
+                for nm in ("training_samples", "iid_samples"):
+                    st = getattr(ns, nm, None)
+                    if st is None or getattr(st, "log_q", None) is None or not len(st.samples):
+                        continue
+                    try:
+                        x, log_j = ns.proposal.rescale(st.samples)
+                        flow = ns.proposal.flow
+                        ind = np.zeros((x.shape[0], flow.n_models + 1))
+                        for i in range(flow.n_models):
+                            for a0 in range(0, x.shape[0], 3001):
+                                ind[a0:a0 + 3001, i + 1] = flow.log_prob_ith(x[a0:a0 + 3001], i) + log_j[a0:a0 + 3001]
+                        b = st.log_q
+                        okk = b.shape == ind.shape and bool(
+                            np.allclose(np.where(np.isfinite(ind), ind, 0), np.where(np.isfinite(b), b, 0), rtol=1e-4, atol=1e-4))
+                        close.setdefault(f"ns.{nm}:log_q", {})["independent_close"] = okk
+                    except Exception as e:
+                        close.setdefault(f"ns.{nm}:log_q", {})["independent_error"] = f"{type(e).__name__}: {e}"[:200]
         emit({"after_construct": first, "ready": ready, "derived": close, "meta": meta_of(ns)})
     return body
 
